@@ -11,6 +11,7 @@ package main
 import (
 	"fmt"
 	"reflect"
+	"sort"
 	"strings"
 
 	flyt "github.com/mark3labs/flyt"
@@ -121,7 +122,41 @@ func nestedMenu(acts map[*spec][]flyt.Action) func(h *H, c call) []answer {
 	}
 }
 
-func nestedScenario(name string, d *shapeDesc) Scenario {
+// innerFlows lists the flow specs nested (at any depth) inside root, once each.
+func innerFlows(root *spec) []*spec {
+	var out []*spec
+	seen := map[*spec]bool{}
+	var walk func(n *spec, top bool)
+	walk = func(n *spec, top bool) {
+		if n == nil || n.flow == nil || seen[n] {
+			return
+		}
+		seen[n] = true
+		if !top {
+			out = append(out, n)
+		}
+		walk(n.flow.start, false)
+		var froms []*spec
+		for from := range n.flow.edges {
+			froms = append(froms, from)
+		}
+		sort.Slice(froms, func(i, j int) bool { return froms[i].id < froms[j].id })
+		for _, from := range froms {
+			walk(from, false)
+			for _, a := range shapeActions {
+				walk(n.flow.edges[from][a], false)
+			}
+		}
+	}
+	walk(root, true)
+	return out
+}
+
+func nestedScenario(name string, d *shapeDesc) Scenario { return nestedScenarioOpt(name, d, false) }
+
+// warm: every inner flow object is first run STANDALONE on another store (a
+// non-initial state): nothing of that run may leak into the nested run.
+func nestedScenarioOpt(name string, d *shapeDesc, warm bool) Scenario {
 	var h *H
 	var root, flatRoot *spec
 	var back map[*spec]*flatState
@@ -136,6 +171,22 @@ func nestedScenario(name string, d *shapeDesc) Scenario {
 		// (1)+(3): nested run against the reference interpreter
 		h = newH(root)
 		h.menu = menu
+		if warm {
+			h.noRefCheck = true
+			h.menu = func(hh *H, c call) []answer { return []answer{{val: nil, action: "zz"}} }
+			h.build(root)
+			for _, in := range innerFlows(root) {
+				other := flyt.NewSharedStore()
+				other.Set("foreign", true)
+				if err := h.build(in).(*flyt.Flow).Run(h.ctx, other); err != nil {
+					core.Problem("standalone run of inner flow %s failed: %v", in.id, err)
+				}
+				h.nextRun()
+			}
+			h.noRefCheck = false
+			h.menu = menu
+			h.hist = nil
+		}
 		a1, e1 := flyt.Run(h.ctx, h.build(root), h.store)
 		core.Logf("nested run returned (%q, %v)", a1, e1)
 		h.finish(a1, e1)
@@ -197,6 +248,9 @@ func genC10(tier string) []Scenario {
 	}
 	for i, d := range enumShapes(depth, true) {
 		out = append(out, nestedScenario(fmt.Sprintf("nested-vs-flat shape#%d=%s", i, d), d))
+		if d.slot >= 0 && (tier == "thorough" || d.inner.slot < 0) {
+			out = append(out, nestedScenarioOpt(fmt.Sprintf("nested-vs-flat after-standalone-runs shape#%d=%s", i, d), d, true))
+		}
 	}
 	return out
 }
